@@ -104,3 +104,41 @@ Proof.
   unfold advanced, bootstrap, db_rows, fresh; simpl.
   rewrite rows_of_app, stmts_all_app. reflexivity.
 Qed.
+
+(* ---------- at catalog level ---------- *)
+(* the catalog effect of a statement list, for an ARBITRARY engine step function *)
+Section Catalog.
+Variable catalog : Type.
+Variable apply_stmt : catalog -> string -> catalog.
+Variable empty : catalog.
+
+Definition catalog_of (l : list string) : catalog := fold_left apply_stmt l empty.
+
+(* from version k the run extends the catalog of the database by exactly the pending statements *)
+Theorem run_from_k_catalog : forall o ms k d,
+  ascending ms = true -> at_version k d = true -> id_conflict ms d = false ->
+  catalog_of (d_applied (fst (run [] o ms d))) =
+  fold_left apply_stmt (stmts_all o (pending k ms)) (catalog_of (d_applied d)).
+Proof.
+  intros o ms k d Ha Hk Hf. destruct (run_from_k o ms k d Ha Hk Hf) as [H _]. rewrite H.
+  unfold advanced, catalog_of; simpl. apply fold_left_app.
+Qed.
+
+(* running on the state produced by the migrations up to version k gives the catalog of a fresh run *)
+Theorem run_equals_fresh_catalog : forall o ms k,
+  ascending ms = true -> versions_u32 ms = true ->
+  catalog_of (d_applied (fst (run [] o ms (fst (run [] o (applied_upto k ms) fresh))))) =
+  catalog_of (d_applied (fst (run [] o ms fresh))).
+Proof. intros o ms k Ha Hi. rewrite (run_equals_fresh o ms k Ha Hi). reflexivity. Qed.
+
+(* ... which is the fold of the engine step over all statements of all migrations with version > 0, in order *)
+Theorem fresh_catalog : forall o ms,
+  ascending ms = true ->
+  catalog_of (d_applied (fst (run [] o ms fresh))) = fold_left apply_stmt (stmts_all o (pending 0 ms)) empty.
+Proof.
+  intros o ms Ha.
+  assert (Hnc : id_conflict ms fresh = false).
+  { unfold id_conflict. simpl. induction ms; [reflexivity|]. simpl. apply IHms. eapply ascending_tail. exact Ha. }
+  rewrite (run_from_k_catalog o ms 0 fresh Ha eq_refl Hnc). reflexivity.
+Qed.
+End Catalog.
